@@ -98,6 +98,15 @@ def main() -> int:
         results = list(ex.map(lambda j: job(*j), jobs))
     bad = 0
     summary = {"clean": [0, 0], "seeded": [0, 0], "refac": [0, 0, 0]}
+    # refactorings on which a check is known to raise a false alarm (or to give up) at present: listed with the reason in
+    # refactorings/OPEN.json and in DESIGN.md; they are run and shown, and do not make this script fail
+    open_path = VERIF / "refactorings" / "OPEN.json"
+    open_refac = json.loads(open_path.read_text()) if open_path.exists() else {}
+    n_open = 0
+    # seeded changes that the property's own check does not report (another property's check does): seeded/OPEN.json
+    open_seed_path = VERIF / "seeded" / "OPEN.json"
+    open_seeds = json.loads(open_seed_path.read_text()) if open_seed_path.exists() else {}
+    n_open_seeds = 0
     for r in results:
         k = r["kind"]
         if "error" in r:
@@ -119,6 +128,22 @@ def main() -> int:
                 summary[k][1] += 1
             else:
                 summary[k][2] += 1
+        if k == "seeded" and r["name"] in open_seeds:
+            if ok:
+                print(f"-- seeded {r['name']}: listed in seeded/OPEN.json but detected now - remove the entry")
+            else:
+                n_open_seeds += 1
+                summary[k][1] -= 1
+                print(f"-- open seeded {r['name']}: not reported by its own check  ({open_seeds[r['name']][:120]})")
+                continue
+        if k == "refac" and r["name"] in open_refac:
+            if ok:
+                print(f"-- refac {r['name']}: listed in OPEN.json but silent now - remove the entry")
+            else:
+                n_open += 1
+                summary[k][1 if any(rc == 1 for rc in rcs.values()) else 2] -= 1
+                print(f"-- open refac {r['name']}: " + " ".join(f"{p}={rc}" for p, rc in rcs.items() if rc != 0) + f"  ({open_refac[r['name']][:120]})")
+                continue
         if not ok:
             bad += 1
             print(f"-- {k} {r['name']}: " + " ".join(f"{p}={rc}" for p, rc in rcs.items() if (rc != 0 if k != 'seeded' else rc != 1)))
@@ -129,7 +154,9 @@ def main() -> int:
                             print(f"     {p}: {l[:260]}")
     print(f"clean: {summary['clean'][0]} ok / {summary['clean'][1]} bad; "
           f"seeded: {summary['seeded'][0]} detected / {summary['seeded'][1]} missed; "
-          f"refac: {summary['refac'][0]} silent / {summary['refac'][1]} false alarm / {summary['refac'][2]} analysis-error only")
+          f"refac: {summary['refac'][0]} silent / {summary['refac'][1]} false alarm / {summary['refac'][2]} analysis-error only"
+          + (f" / {n_open} open (refactorings/OPEN.json)" if n_open else "")
+          + (f"; {n_open_seeds} seeded changes open (seeded/OPEN.json)" if n_open_seeds else ""))
     return 1 if bad else 0
 
 
